@@ -282,9 +282,35 @@ def impl_sweep(case):
 def impl_any(case):
     """one worker entry point for all parts, so that every worker process pays import + JIT once"""
     part, payload = case
+    if part == "bundle":
+        return {"bundle": [impl_any(c) for c in payload]}
     if part == "sweep":
         return impl_sweep(payload)
     return impl_agree(payload)
+
+
+def run_bundled(items, keys, workers, timeout):
+    """run_impl over bundles of cases with equal key (one worker pays the JIT of one operation family); a bundle
+    that hangs / crashes is re-run case by case so that the watchdog verdict is per case"""
+    order = {}
+    for i, k in enumerate(keys):
+        order.setdefault(k, []).append(i)
+    bundles = list(order.values())
+    bres = vlib.run_impl("props.c17", "impl_any", [("bundle", [items[i] for i in b]) for b in bundles],
+                         workers=workers, per_case_timeout=timeout)
+    out = [None] * len(items)
+    redo = []
+    for b, r in zip(bundles, bres, strict=True):
+        if isinstance(r, dict) and "bundle" in r and len(r["bundle"]) == len(b):
+            for i, x in zip(b, r["bundle"], strict=True):
+                out[i] = x
+        else:
+            redo.extend(b)
+    if redo:
+        rres = vlib.run_impl("props.c17", "impl_any", [items[i] for i in redo], workers=workers, per_case_timeout=30.0)
+        for i, x in zip(redo, rres, strict=True):
+            out[i] = x
+    return out, len(bundles), len(redo)
 
 
 # =================================================================== generators (parent side)
@@ -313,8 +339,8 @@ def _formats(tier):
 
 def _sp(rng, fmt, shape, fill=0, dtype="int64", lo=-3, hi=4):
     name, ca = fmt
-    if ca is not None and (len(shape) < 2 or max(ca) >= len(shape)):
-        ca = None
+    if ca is not None and (len(shape) < 2 or max(ca) >= len(shape) or len(ca) >= len(shape)):
+        ca = None          # GCXS cannot compress all axes: fall back to the default choice
     return ("sp", name, ca, _rand_dense(rng, shape, fill, lo, hi), fill, dtype)
 
 
@@ -729,10 +755,12 @@ def campaign(build, tier, seed, report, budget=1):
     scases, smeta = _shape_cases(T, wrappers, rng, tier)
     wcases, wmeta = _sweep_cases(T, rng, tier)
     t0 = time.time()
-    allres = vlib.run_impl("props.c17", "impl_any",
-                           [("agree", c) for c in cases] + [("agree", c) for c in scases] + [("sweep", c) for c in wcases],
-                           workers=WORKERS, per_case_timeout=30.0)
+    keys = [("a", m[0]) for m in meta] + [("s", m[1]) for m in smeta] + [("w", i // 40) for i in range(len(wcases))]
+    allres, nb, nredo = run_bundled([("agree", c) for c in cases] + [("agree", c) for c in scases] +
+                                    [("sweep", c) for c in wcases], keys, WORKERS, 90.0)
     timing["impl"] = round(time.time() - t0, 1)
+    timing["bundles"] = nb
+    timing["cases_rerun_individually"] = nredo
     res = allres[:len(cases)]
     sres = allres[len(cases):len(cases) + len(scases)]
     wres = allres[len(cases) + len(scases):]
